@@ -8,6 +8,8 @@
 //   api=ctsh   ConcurrentTaskSet(TaskCost::kHeavy)  -> ThreadPool::schedulePlaced(f, FQ) (steal rings) / scheduleBulk FQ
 // (ThreadPool has no scheduleBulk(..., FQ) overload.)
 //
+// api=sets = any of ts/ctsl/ctsh, api=any = any of the four, caller=any = ext or pool (chosen by mc::choose; with api=pool the
+// B<k> steps of a program are skipped).
 // params: n pool size (>=1), mult poolLoadMultiplier, smult stealingLoadMultiplier, caller=ext|pool (the thread
 // that runs program `t0`: T0 itself, or a task running on a pool thread), t1 = optional second external caller
 // (api pool/ctsl/ctsh only: TaskSet is single-threaded), gate=1: every functor blocks until its caller has
@@ -155,11 +157,22 @@ void caller_main(dispenso::ThreadPool& pool, dispenso::ConcurrentTaskSet* shared
 MC_HARNESS(fq) {
   long n = P("n", 1), mult = P("mult", 1), smult = P("smult", 1);
   std::string api = P.s("api", "pool"), t0 = P.s("t0", "q"), t1 = P.s("t1", ""), who0 = P.s("caller", "ext");
+  // api=any / api=sets / caller=any: resolved by mc::choose before any thread exists, so that one run (one process)
+  // explores the whole family jointly with its schedules
+  bool norm = (who0 == "pool" || who0 == "any") && api != "pool" && api != "ts" && t0.find('B') != std::string::npos;
+  if (api == "any") {
+    static const char* apis[] = {"pool", "ts", "ctsl", "ctsh"};
+    api = apis[mc::choose(4)];
+  } else if (api == "sets") {
+    static const char* apis[] = {"ts", "ctsl", "ctsh"};
+    api = apis[mc::choose(3)];
+  }
+  if (who0 == "any") who0 = mc::choose(2) ? "pool" : "ext";
   bool two = !t1.empty() && t1 != "-";
   State st;
   st.gate = P("gate", 1) != 0;
   // ConcurrentTaskSet::scheduleBulk(.., FQ) from a pool thread enqueues without a producer token: see submit_stacknorm.h
-  submit_stacknorm::g_enabled = who0 == "pool" && (api == "ctsl" || api == "ctsh") && t0.find('B') != std::string::npos;
+  submit_stacknorm::g_enabled = norm;
   MC_CHECK(n >= 1, "harness: C47 is stated for pools with at least one thread");
   {
     dispenso::ThreadPool pool((size_t)n, (size_t)mult);
@@ -170,15 +183,27 @@ MC_HARNESS(fq) {
     if (two) mc::spawn([&] { caller_main(pool, shared, st, api, smult, 1, t1, false); });
     if (who0 == "pool") {
       // the caller is a pool thread: a launcher task (itself force-queued, and checked like any other) runs the program
-      mc::Shared<int> launcher_done{0};
+      // (the closure is kept at 16 bytes: a larger one makes OnceFunction take a 128-byte small-buffer chunk, whose
+      // first carve-up costs ~700 scheduling points on T0)
+      struct Ctx {
+        dispenso::ThreadPool& pool;
+        dispenso::ConcurrentTaskSet* shared;
+        State& st;
+        const std::string& api;
+        long smult;
+        const std::string& t0;
+        mc::Shared<int> done{0};
+      } ctx{pool, shared, st, api, smult, t0};
+      mc::Shared<int>& launcher_done = ctx.done;
       int id = st.fresh(3, 1);
       st.gate_open[3].set(1); // the launcher does not wait for a gate
+      Ctx* cp = &ctx;
       pool.schedule(
-          [&, id] {
-            st.body(id, "ThreadPool::schedule(f, FQ) [launcher]");
+          [cp, id] {
+            cp->st.body(id, "ThreadPool::schedule(f, FQ) [launcher]");
             mc::cover("caller_is_pool_thread");
-            caller_main(pool, shared, st, api, smult, 0, t0, true);
-            launcher_done.set(1);
+            caller_main(cp->pool, cp->shared, cp->st, cp->api, cp->smult, 0, cp->t0, true);
+            cp->done.set(1);
           },
           dispenso::ForceQueuingTag());
       st.done(id, 1);
